@@ -98,7 +98,7 @@ def ohe_rules(repo):
     elif illegal is None or ignore is None:
         out.append(unrecognised("R-TABLE", r, role, "the writer's sentinels were not recognised (ignore=%s illegal=%s): cannot compare with the reader" % (ignore, illegal)))
     elif (r_skip, r_raise) != (ignore, illegal):
-        out.append(violation("R-TABLE", r, role, "reader skips %s / raises on %s but the writer stores ignore=%s / illegal=%s" % (r_skip, r_raise, ignore, illegal), r.node,
+        out.append(named("R-TABLE", r, role, "reader skips %s / raises on %s but the writer stores ignore=%s / illegal=%s" % (r_skip, r_raise, ignore, illegal), r.node,
                              witness={"writer": {"ignore": ignore, "illegal": illegal}, "reader": {"skip": r_skip, "raise": r_raise}}))
     else:
         # the sentinel tests precede the store
